@@ -75,6 +75,8 @@ def crosscheck(ctx: Ctx) -> None:
             by_key[(c.co_name, c.co_firstlineno)] = c
         for f in u.functions():
             node = f.node
+            if getattr(node, '_synthetic', False):
+                continue      # nested function synthesized by the loader's normalisations: no code object of its own
             first = node.decorator_list[0].lineno if node.decorator_list else node.lineno
             c = by_key.get((node.name, first)) or by_key.get((node.name, node.lineno))
             if c is None:
